@@ -501,7 +501,7 @@ int AsmContext::link()
 
     if (symbol == nullptr) { break; }
 
-    symbols.append(symbol, address);
+    if (symbols.append(symbol, address) != 0) { return -1; }
 
     uint8_t *code;
     uint32_t function_offset;
